@@ -78,6 +78,11 @@ Theorem C16_po2_signed_times_unsigned_refuted :
   exists w x, q_mode w = 1 /\ q_mode x = 1 /\ mul_bad_pairs w x <> [].
 Proof. exact adder_mul_mixed_sign_refuted. Qed.
 Print Assumptions C16_po2_signed_times_unsigned_refuted.
+(* ... and, of the same sign, when one operand has max_value <= 1 (no exponent sign bit) and the other has one *)
+Theorem C16_po2_operand_without_exponent_sign_bit_refuted :
+  exists w x, q_mode w = 1 /\ q_mode x = 1 /\ q_sgn w = q_sgn x /\ mul_bad_pairs w x <> [].
+Proof. exact adder_mul_no_exponent_sign_bit_refuted. Qed.
+Print Assumptions C16_po2_operand_without_exponent_sign_bit_refuted.
 
 Theorem C16_and_gate_01_weight_refuted :
   exists w x, q_mode w = 4 /\ q_mode x = 0 /\ mul_bad_pairs w x <> [].
